@@ -319,7 +319,7 @@ def gen_method_len(cls, path, conf):
         dim_len_idx = 1
         terms = []
         for dim_len in lasttype._shape:
-            if dim_len:
+            if dim_len is not None:  # static extent (may be 0)
                 terms.append(str(dim_len))
             else:
                 terms.append(f"arr[{dim_len_idx}]")
